@@ -78,4 +78,10 @@ CHECKS = {
         "text": "Generated lists of 2-4 same-dimension units (library, anonymous and named scaled units, rational scales up to 2^40, pi on both sides, plus irrational-ratio lists) are reified under every permutation and a repetition variant; the model checks that each input/common ratio is a positive integer, that the ratios are jointly coprime (equals the exact GCD magnitude), that an input equal to the GCD unit is the result type, that the type is permutation-invariant, that nesting is quantity-equivalent and that std::common_type is symmetric; a slice is compared across compilers.",
         "note": "Trusted: vf/model.py exponent arithmetic; leaf magnitudes are read from the library.",
     },
+    "C10": {
+        "module": ("vf.props.c10", "C10"), "engine": "planeB",
+        "technique": "runtime monitoring: point conversions to the common point unit executed for x in {0,1,7}, affine map recovered and compared with the exact rational model; type identity under permutation via reified traces",
+        "text": "Pairs/triples of temperature point units (library + generated rational scale and origin) are combined in every ordering; the common point unit's type must be order-independent; converting x = 0, 1, 7 from each input must give m*x + b with m a positive integer equal to the exact scale ratio and b a non-negative integer consistent with one common origin; an input that already has that scale and origin must be the result type.",
+        "note": "Trusted: Fraction model of (scale, origin) written from the unit definitions; library lists the policy refuses are counted, not judged.",
+    },
 }
